@@ -71,3 +71,36 @@ Fixpoint only_ok (res : list bool) : list bool :=
   | [] => []
   | r :: rs => if r then true :: only_ok rs else only_ok rs
   end.
+
+(* txDeliverer with validation (the repaired code): BeginTxSession; handler.Validate — an
+   arbitrary program too; when it rejects, the session is discarded and neither the handler nor
+   the fee step runs; otherwise as [deliver] *)
+Definition deliver_v (s : state) (v h : prog) (fee : bool -> prog) : bool * state :=
+  let s0 := with_sess s (Some oempty) in
+  let '(vok, s1) := exec v s0 in
+  if vok then
+    let '(ok, s2) := exec h s1 in
+    let '(feeOk, s3) := exec (fee ok) s2 in
+    if ok && feeOk
+    then (true, match sess s3 with
+                | Some o => with_sess (with_cache s3 (replay o (cache s3))) None
+                | None => s3
+                end)
+    else (false, with_sess s3 None)
+  else (false, with_sess s1 None).
+
+Definition vtx := (prog * prog * (bool -> prog))%type.
+
+Fixpoint run_block_v (s : state) (txs : list vtx) : list bool * state :=
+  match txs with
+  | [] => ([], s)
+  | (v, h, fee) :: rest =>
+      let '(r, s1) := deliver_v s v h fee in
+      let '(rs, s2) := run_block_v s1 rest in (r :: rs, s2)
+  end.
+
+Fixpoint drop_failed_v (txs : list vtx) (res : list bool) : list vtx :=
+  match txs, res with
+  | t :: ts, r :: rs => if r then t :: drop_failed_v ts rs else drop_failed_v ts rs
+  | _, _ => []
+  end.
